@@ -534,15 +534,41 @@ package engine
 //@   props C07 C08 C16
 //@   arith int unchecked
 //@   requires kc != nil && rb != nil && wfParsed(kc) && wfKc(rb.Kc)
+//@   ghost OLD = rb.Kc
+//@   ghost A0 unsafe.Pointer = nil
+//@   oncall tool.BinarySearch
+//@     after A0 := arr(arg0)
 //@   ensures [C07] freshcontainer: fresh(rb.Kc)
-//@   ensures_trusted [C08] merged: wfKc(rb.Kc) && (forall k: string :: (k in rb.Kc.RuleEntities) <==> (old(k in rb.Kc.RuleEntities) || (k in kc.RuleEntities))) && (forall k: string :: (k in kc.RuleEntities) ==> rb.Kc.RuleEntities[k] == kc.RuleEntities[k]) && (forall k: string :: old(k in rb.Kc.RuleEntities) && !(k in kc.RuleEntities) ==> rb.Kc.RuleEntities[k] == old(rb.Kc.RuleEntities[k]))
+//@   ensures [C08] merged: wfKc(rb.Kc)
+//@   ensures [C08] view: (forall k: string :: (k in rb.Kc.RuleEntities) <==> ((k in OLD.RuleEntities) || (k in kc.RuleEntities))) && (forall k: string :: (k in kc.RuleEntities) ==> rb.Kc.RuleEntities[k] == kc.RuleEntities[k]) && (forall k: string :: (k in OLD.RuleEntities) && !(k in kc.RuleEntities) ==> rb.Kc.RuleEntities[k] == OLD.RuleEntities[k])
 //@   modifies rb.Kc
 //@   panicsafe
-//@   loop 0 invariant a: newRuleEntities != nil && fresh(newRuleEntities)
-//@   loop 1 invariant b: newRuleEntities != nil && fresh(newRuleEntities) && fresh(arr(newSortRules)) && lo(newSortRules) == 0
-//@   loop 2 invariant c: newRuleEntities != nil && fresh(newRuleEntities) && (isnil(newSortRules) || fresh(arr(newSortRules)))
-//@   loop 3 invariant d: newRuleEntities != nil && fresh(newRuleEntities) && indexMap != nil && fresh(indexMap) && (isnil(newSortRules) || fresh(arr(newSortRules)))
-//@   loop 4 invariant e: newRuleEntities != nil && fresh(newRuleEntities) && indexMap != nil && fresh(indexMap) && (isnil(newSortRules) || fresh(arr(newSortRules)))
+//@   nopanic
+//@   loop 0 invariant a1: newRuleEntities != nil && fresh(newRuleEntities) && rb.Kc == OLD && sortRulesIndexMap == OLD.SortRulesIndexMap
+//@   loop 0 invariant a2: (forall k: string :: (k in newRuleEntities) ==> (k in visited) && (k in OLD.RuleEntities) && newRuleEntities[k] == OLD.RuleEntities[k]) && (forall k: string :: (k in visited) ==> (k in newRuleEntities))
+//@   loop 1 invariant b0: newRuleEntities != nil && fresh(newRuleEntities) && rb.Kc == OLD && sortRulesIndexMap == OLD.SortRulesIndexMap && (forall k: string :: ((k in newRuleEntities) <==> (k in OLD.RuleEntities)) && ((k in OLD.RuleEntities) ==> newRuleEntities[k] == OLD.RuleEntities[k]))
+//@   loop 1 invariant b1: fresh(arr(newSortRules)) && lo(newSortRules) == 0 && len(newSortRules) == len(OLD.SortRules) && cap(newSortRules) >= len(newSortRules) && -1 <= rangeindex && rangeindex < len(OLD.SortRules)
+//@   loop 1 invariant b2: forall qa :: 0 <= qa && qa <= rangeindex ==> at(newSortRules, qa) == at(OLD.SortRules, lo(OLD.SortRules) + qa)
+//@   loop 1 decreases len(OLD.SortRules) - rangeindex
+//@   loop 2 invariant c0: newRuleEntities != nil && fresh(newRuleEntities) && rb.Kc == OLD && fresh(arr(newSortRules)) && lo(newSortRules) == 0 && cap(newSortRules) >= len(newSortRules) && sortRulesIndexMap != nil
+//@   loop 2 invariant c1: Wlist(newSortRules, newRuleEntities, sortRulesIndexMap)
+//@   loop 2 invariant c2: Wmap(newSortRules, newRuleEntities, sortRulesIndexMap)
+//@   loop 2 invariant c3: sortedDesc(newSortRules)
+//@   loop 2 invariant c4: (forall k: string :: (k in newRuleEntities) <==> ((k in OLD.RuleEntities) || (k in visited))) && (forall k: string :: (k in visited) ==> (k in kc.RuleEntities) && newRuleEntities[k] == kc.RuleEntities[k]) && (forall k: string :: !(k in visited) && (k in OLD.RuleEntities) ==> newRuleEntities[k] == OLD.RuleEntities[k])
+//@   loop 3 invariant d0: newRuleEntities != nil && fresh(newRuleEntities) && rb.Kc == OLD && indexMap != nil && fresh(indexMap) && fresh(arr(newSortRules)) && arr(newSortRules) == A0 && lo(newSortRules) == 0 && -1 <= rangeindex && rangeindex < len(newSortRules) && (lastkey in kc.RuleEntities) && (lastkey in newRuleEntities) && sortRulesIndexMap != nil && index == sortRulesIndexMap[lastkey] && 0 <= index && index < len(newSortRules)
+//@   loop 3 invariant d1: sortedDesc(newSortRules) && allNonNil(newSortRules) && 0 <= ite(mid == 0, low, mid) && ite(mid == 0, low, mid) < len(newSortRules) && at(newSortRules, ite(mid == 0, low, mid)) == kc.RuleEntities[lastkey]
+//@   loop 3 invariant d2: forall qa :: 0 <= qa && qa < len(newSortRules) && qa != ite(mid == 0, low, mid) ==> (at(newSortRules, qa).RuleName in newRuleEntities) && at(newSortRules, qa).RuleName != lastkey && newRuleEntities[at(newSortRules, qa).RuleName] == at(newSortRules, qa) && sortRulesIndexMap[at(newSortRules, qa).RuleName] == ite(ite(qa < ite(mid == 0, low, mid), qa, qa - 1) < index, ite(qa < ite(mid == 0, low, mid), qa, qa - 1), ite(qa < ite(mid == 0, low, mid), qa, qa - 1) + 1)
+//@   loop 3 invariant d3: forall k: string :: (k in newRuleEntities) && k != lastkey ==> newRuleEntities[k] != nil && newRuleEntities[k].RuleName == k && at(newSortRules, ite(ite(sortRulesIndexMap[k] < index, sortRulesIndexMap[k], sortRulesIndexMap[k] - 1) < ite(mid == 0, low, mid), ite(sortRulesIndexMap[k] < index, sortRulesIndexMap[k], sortRulesIndexMap[k] - 1), ite(sortRulesIndexMap[k] < index, sortRulesIndexMap[k], sortRulesIndexMap[k] - 1) + 1)) == newRuleEntities[k] && 0 <= sortRulesIndexMap[k] && sortRulesIndexMap[k] < len(newSortRules) && sortRulesIndexMap[k] != index
+//@   loop 3 invariant d4: (forall qa :: 0 <= qa && qa <= rangeindex ==> (at(newSortRules, qa).RuleName in indexMap) && indexMap[at(newSortRules, qa).RuleName] == qa) && (forall k: string :: (k in indexMap) ==> 0 <= indexMap[k] && indexMap[k] <= rangeindex && at(newSortRules, indexMap[k]).RuleName == k)
+//@   loop 3 invariant d5: (forall k: string :: (k in newRuleEntities) <==> ((k in OLD.RuleEntities) || (k in visited) )) && (forall k: string :: (k in visited) && k != lastkey ==> (k in kc.RuleEntities) && newRuleEntities[k] == kc.RuleEntities[k]) && (forall k: string :: !(k in visited) && (k in OLD.RuleEntities) ==> newRuleEntities[k] == OLD.RuleEntities[k]) && (lastkey in visited) && kc.RuleEntities[lastkey] != nil && kc.RuleEntities[lastkey].RuleName == lastkey
+//@   loop 3 decreases len(newSortRules) - rangeindex
+//@   loop 4 invariant e0: newRuleEntities != nil && fresh(newRuleEntities) && rb.Kc == OLD && indexMap != nil && fresh(indexMap) && fresh(arr(newSortRules)) && lo(newSortRules) == 0 && cap(newSortRules) >= len(newSortRules) && -1 <= rangeindex && rangeindex < len(newSortRules) && (lastkey in kc.RuleEntities) && !(lastkey in newRuleEntities) && sortRulesIndexMap != nil
+//@   loop 4 invariant e1: sortedDesc(newSortRules) && allNonNil(newSortRules) && 0 <= ite(mid == 0, low, mid) && ite(mid == 0, low, mid) < len(newSortRules) && at(newSortRules, ite(mid == 0, low, mid)) == kc.RuleEntities[lastkey]
+//@   loop 4 invariant e2: forall qa :: 0 <= qa && qa < len(newSortRules) && qa != ite(mid == 0, low, mid) ==> (at(newSortRules, qa).RuleName in newRuleEntities) && newRuleEntities[at(newSortRules, qa).RuleName] == at(newSortRules, qa) && sortRulesIndexMap[at(newSortRules, qa).RuleName] == ite(qa < ite(mid == 0, low, mid), qa, qa - 1)
+//@   loop 4 invariant e3: forall k: string :: (k in newRuleEntities) ==> newRuleEntities[k] != nil && newRuleEntities[k].RuleName == k && at(newSortRules, ite(sortRulesIndexMap[k] < ite(mid == 0, low, mid), sortRulesIndexMap[k], sortRulesIndexMap[k] + 1)) == newRuleEntities[k] && 0 <= sortRulesIndexMap[k] && sortRulesIndexMap[k] < len(newSortRules) - 1
+//@   loop 4 invariant e4: (forall qa :: 0 <= qa && qa <= rangeindex ==> (at(newSortRules, qa).RuleName in indexMap) && indexMap[at(newSortRules, qa).RuleName] == qa) && (forall k: string :: (k in indexMap) ==> 0 <= indexMap[k] && indexMap[k] <= rangeindex && at(newSortRules, indexMap[k]).RuleName == k)
+//@   loop 4 invariant e5: (forall k: string :: (k in newRuleEntities) <==> (((k in OLD.RuleEntities) || (k in visited)) && k != lastkey)) && (forall k: string :: (k in visited) && k != lastkey ==> (k in kc.RuleEntities) && newRuleEntities[k] == kc.RuleEntities[k]) && (forall k: string :: !(k in visited) && (k in OLD.RuleEntities) ==> newRuleEntities[k] == OLD.RuleEntities[k]) && (lastkey in visited) && kc.RuleEntities[lastkey] != nil && kc.RuleEntities[lastkey].RuleName == lastkey
+//@   loop 4 decreases len(newSortRules) - rangeindex
 
 //@ func (*GenginePool).UpdatePooledRulesIncremental
 //@   props C07 C10 C16 C19
